@@ -44,7 +44,12 @@ let () =
        [Specfail ("c17_metric_file_of_its_street", Printf.sprintf "a metric of %s entries (street %s) was written to the file of street %s" i.(2) i.(1) o.(0))])
     @ (if o.(1) = "1" then [] else
          [Specfail ("c17_metric_loads_from_its_street", Printf.sprintf "a metric of %s entries saved; Metric::load(street %s) %s" i.(2) i.(1)
-                      (if o.(1) = "P" then "fails" else "returns something else"))]))
+                      (if o.(1) = "P" then "fails" else "returns something else"))])
+    @ (if Array.length o < 3 || o.(2) = "-" then [] else begin
+        let bad = ref [] in
+        String.iteri (fun k ch -> if ch <> 'E' && ch <> 'S' && !bad = [] then
+            bad := [Specfail ("c18_truncated_file_loaded", Printf.sprintf "the full-size metric of street %s (%s entries) cut %d bytes before its end loads silently with different content" i.(1) i.(2) (48 - k))]) o.(2);
+        !bad end))
 
 let () =
   register "pg" (fun i o ->
